@@ -25,12 +25,20 @@ std::size_t alloc_cap = 64u << 20;
 unsigned char heap_fill = 0xA5;
 }
 
+// fill mode is read from the environment on first use (allocations happen before main):
+// VERIF_HEAP_NOFILL leaves fresh memory untouched (valgrind definedness tracking), VERIF_HEAP_FILL=<byte> selects the pattern
+static int gFillMode = -2;   // -2 unknown, -1 no fill, 0..255 pattern
 static void* verifAlloc(std::size_t n)
 {
+	if (gFillMode == -2) {
+		if (std::getenv("VERIF_HEAP_NOFILL")) gFillMode = -1;
+		else if (const char* f = std::getenv("VERIF_HEAP_FILL")) { gFillMode = int(std::strtoul(f, nullptr, 0) & 0xFF); mc::heap_fill = (unsigned char)gFillMode; }
+		else gFillMode = mc::heap_fill;
+	}
 	if (n > mc::alloc_cap) throw std::bad_alloc();
 	void* p = std::malloc(n ? n : 1);
 	if (!p) throw std::bad_alloc();
-	std::memset(p, mc::heap_fill, n);
+	if (gFillMode >= 0) std::memset(p, gFillMode, n);
 	return p;
 }
 void* operator new(std::size_t n) { return verifAlloc(n); }
@@ -455,7 +463,6 @@ int Main(int argc, char** argv, CheckDef& def)
 	if (const char* w = std::getenv("VERIF_WORKERS")) workers = std::atoi(w);
 	if (const char* s = std::getenv("VERIF_SEED")) ctx.seed = std::strtoull(s, nullptr, 10);
 	if (const char* c = std::getenv("VERIF_ALLOC_CAP")) alloc_cap = std::strtoull(c, nullptr, 10);
-	if (const char* c = std::getenv("VERIF_HEAP_FILL")) heap_fill = (unsigned char)std::strtoul(c, nullptr, 0);
 	double deadlineS = 0;
 	if (const char* d = std::getenv("VERIF_DEADLINE_S")) deadlineS = std::atof(d);
 	for (int i = 1; i < argc; ++i) {
